@@ -150,6 +150,19 @@ func (m *infixModel) inlineHelpers(caller, callee *ssa.Function) bool {
 	if callee.Signature.Recv() == nil && pkg != nil && pkg == m.fn.Pkg && obj != nil && !obj.Exported() && len(callee.Blocks) > 0 {
 		return true // plain unexported helper of the evaluator's package (a predicate over the operator, ...)
 	}
+	// a function literal of the package (an entry of an operator table): walked where the table's entry is called
+	if lit := callee; lit.Parent() != nil || (lit.Origin() != nil && lit.Origin().Parent() != nil) {
+		top := lit
+		if top.Origin() != nil {
+			top = top.Origin()
+		}
+		for top.Parent() != nil {
+			top = top.Parent()
+		}
+		if top.Pkg != nil && top.Pkg == m.fn.Pkg && len(callee.Blocks) > 0 && !funcHasLoop(callee) {
+			return true
+		}
+	}
 	if !m.w.isCompilerMethod(callee) || m.tables[callee] != nil || callee == m.truthy {
 		return false
 	}
@@ -314,7 +327,7 @@ func c06TablesSSA(r *Run) {
 		binary := false
 		for _, ss := range byLabel {
 			for _, s := range ss {
-				if _, ok := stripIface(s.val).(*ssa.BinOp); ok {
+				if _, ok := s.p.resolve(stripIface(s.p.resolve(s.val))).(*ssa.BinOp); ok {
 					binary = true
 				}
 			}
